@@ -15,12 +15,13 @@ from ..monitors import SolverSpy
 from ..runner import Skip
 from . import c03
 
-RULE = ("cases from rng(seed, 6, 0, i), mode = i mod 6: (0) well-posed cluster graph + extra fixed vertices incl. fixed vertices with no incident edge, fixed "
+RULE = ("cases from rng(seed, 6, 0, i), mode = i mod 7: (0) well-posed cluster graph + extra fixed vertices incl. fixed vertices with no incident edge, fixed "
         "landmarks: one step vs reduced solution; (1) 1..20 iterations from near or far (diverging) starts; (2) under-constrained: one component without "
         "fixed vertex -> singular solve; (3) injected solver fault (NaN / inf / partial NaN vector, raised error) at iteration j; (4) free vertex without "
-        "edges (singular); (5) all vertices fixed. all pose types, fix_first_pose in {True, False}. distinct = spec fingerprint + mode; non-trivial = "
+        "edges (singular); (5) all vertices fixed; (6) histories of 2..4 optimize() calls on one graph with fixed flags switched on/off between calls, each call compared with a fresh "
+        "graph built in the same state; initial poses may share storage (same pose object / numpy array). all pose types, fix_first_pose in {True, False}. distinct = spec fingerprint + mode; non-trivial = "
         ">=1 fixed vertex with incident edges of non-zero error, or a fault case.")
-REQ = ["eval:fixed-pose-unchanged", "eval:fixed-flags", "mode:0", "mode:1", "mode:2", "mode:3", "mode:4", "mode:5", "outcome:returned", "class:isolated_fixed_vertex",
+REQ = ["eval:fixed-pose-unchanged", "eval:fixed-flags", "mode:0", "mode:1", "mode:2", "mode:3", "mode:4", "mode:5", "mode:6", "eval:same-as-fresh-graph-in-same-state", "class:shared_pose_storage", "outcome:returned", "class:isolated_fixed_vertex",
        "class:singular_solve", "class:fault_injected", "eval:gn-step-applied", "class:nonfinite_free_vertices_observed"]
 PLAN = {
     "quick": {"cases": 1800, "soft_s": 80, "min_nontrivial": 500, "require": REQ},
@@ -88,13 +89,17 @@ def add_isolated(rng, spec, fixed, n=None):
 
 
 def run_case(ctx, i, rng):
-    mode = i % 6
+    mode = i % 7
     ffp = bool(rng.random() < 0.5)
     ctx.count("mode:%d" % mode)
     feats = {"mode": mode}
     nontrivial = False
+    if mode == 6:
+        return history_case(ctx, i, rng, ffp)
     if mode == 0:
-        spec, labels = gen.cluster_graph(rng)
+        spec, labels = gen.cluster_graph(rng, alias=bool(rng.random() < 0.4))
+        if "shared_pose_storage" in labels:
+            ctx.count("class:shared_pose_storage")
         sub = int(rng.integers(0, 4))
         if sub in (0, 1):
             add_isolated(rng, spec, True)
@@ -122,7 +127,10 @@ def run_case(ctx, i, rng):
         nontrivial = True
     elif mode == 1:
         far = rng.random() < 0.5
-        spec, labels = gen.cluster_graph(rng, init_t=(float(10 ** rng.uniform(0, 3)) if far else 0.2), init_r=(1.5 if far else 0.1), custom=bool(rng.random() < 0.5))
+        spec, labels = gen.cluster_graph(rng, init_t=(float(10 ** rng.uniform(0, 3)) if far else 0.2), init_r=(1.5 if far else 0.1), custom=bool(rng.random() < 0.5),
+                                         alias=bool(rng.random() < 0.4))
+        if "shared_pose_storage" in labels:
+            ctx.count("class:shared_pose_storage")
         ctx.count("class:far_start" if far else "class:near_start")
         g = M.build(spec)
         kw = {"max_iter": int(rng.integers(1, 21)), "tol": float(rng.choice([0.0, 1e-6, 1e-4])), "fix_first_pose": ffp}
@@ -193,6 +201,55 @@ def run_case(ctx, i, rng):
         ctx.nontrivial(gen.fingerprint({"spec": spec, "mode": mode, "ffp": ffp}))
     ctx.sample({"mode": mode, "n_vertices": len(spec["vertices"]), "fixed": [bool(v["fixed"]) for v in spec["vertices"]], "kinds": [v["kind"] for v in spec["vertices"]],
                 "features": feats}, cap=3)
+
+
+def history_case(ctx, i, rng, ffp):
+    """Several optimize() calls on one graph, fixed flags changed in between: no stale fixed set, no hidden state."""
+    spec, labels = gen.cluster_graph(rng, size=(3, 6), alias=bool(rng.random() < 0.3))
+    if "shared_pose_storage" in labels:
+        ctx.count("class:shared_pose_storage")
+    g = M.build(spec)
+    ffp = False
+    toggled = []
+    ncalls = int(rng.integers(2, 5))
+    hist = []
+    for c in range(ncalls):
+        # switch flags: fix one more free vertex, or release one that was fixed earlier in this history (clusters keep their original fixed vertex)
+        free_idx = [j for j, v in enumerate(g._vertices) if not v.fixed]
+        if c > 0 or rng.random() < 0.5:
+            if toggled and rng.random() < 0.4:
+                j = toggled.pop(int(rng.integers(len(toggled))))
+                g._vertices[j].fixed = False
+                hist.append("release %d" % j)
+            elif free_idx:
+                j = free_idx[int(rng.integers(len(free_idx)))]
+                g._vertices[j].fixed = True
+                toggled.append(j)
+                hist.append("fix %d" % j)
+        kw = {"max_iter": int(rng.integers(1, 3)), "tol": 0.0, "fix_first_pose": ffp}
+        # a fresh graph in the same state
+        now = gen.copy_spec(spec)
+        now.pop("share", None)
+        for v, lv in zip(now["vertices"], g._vertices):
+            v["pose"] = M.fl(lv.pose)
+            v["fixed"] = bool(lv.fixed)
+        fresh = M.build(now)
+        case = {"graph": {k: v for k, v in now.items() if k != "truth_by_id"}, "kwargs": kw, "mode": 6, "history": list(hist), "call": c}
+        feats = {"mode": 6, "call": c}
+        outcome, res, before, after, spy = observe_run(ctx, g, kw, feats, case)
+        try:
+            M.quiet_optimize(fresh, **kw)
+        except Exception:
+            ctx.skip("fresh graph raised")
+            break
+        fa = M.snapshot_poses(fresh)
+        same = outcome == "returned" and all(len(p) == len(q) and all((x == y) or (x != x and y != y) or abs(x - y) <= 1e-12 * max(1.0, abs(x)) for x, y in zip(p, q)) for p, q in zip(after, fa))
+        ctx.check("same-as-fresh-graph-in-same-state", same, feats, {"history": hist, "outcome": outcome}, case)
+        hist.append("optimize(%s)" % kw)
+        if not all(math.isfinite(x) for p in after for x in p):
+            break
+    ctx.nontrivial(gen.fingerprint({"spec": spec, "hist": hist}))
+    ctx.sample({"mode": 6, "history": hist, "n_vertices": len(spec["vertices"])}, cap=1)
 
 
 # --------------------------------------------------------------------------- #
